@@ -612,6 +612,9 @@ func (env *SpecEnv) call(n *ast.CallExpr) Value {
 		}
 		env.inOld = save
 		return v
+	case "fact":
+		need(1)
+		return env.boolTerm(args[0])
 	case "implies":
 		need(2)
 		g := env.state().sub(env.boolTerm(args[0]))
@@ -1003,14 +1006,12 @@ func init() {
 		if t.Op == "var" || t.IsConst() || (t.Op == "app" && t.Name != "toring") {
 			return t
 		}
-		return lift1(t, func(t *Term) *Term {
-			if t.Op == "var" || t.IsConst() {
-				return t
-			}
-			v := mkVar("atom$"+shortKey(t.Key()), t.Sort)
-			env.state().assume(mkEq(v, t))
-			return v
-		})
+		v := mkVar("atom$"+shortKey(t.Key()), t.Sort)
+		if lo, hi := rangeOf(t); t.Sort == SInt && lo != nil {
+			v = mkIntVarR("atom$"+shortKey(t.Key()), lo, hi)
+		}
+		env.state().assume(mkEq(v, t))
+		return v
 	}
 	// slift(x): signed representative of a residue mod N in (-N/2, N/2]
 	specFuncs["slift"] = func(env *SpecEnv, n *ast.CallExpr) Value {
